@@ -4,6 +4,8 @@
 (*   host calls act on the regular context x;  checkpoint: y := x                   *)
 (*   C   collapse at the end:  panic / out-of-gas => y                              *)
 (*                             halt => x, a 32-byte output overriding the yield     *)
+(*                             (an output of any other length, longer ones included, *)
+(*                             leaves the yield alone)                              *)
 (* A context is abstracted to the components the statement names:                   *)
 (*   st   own storage (key -> value)          tr   deferred transfers (sequence)     *)
 (*   nw   code hashes of the services created (sequence)                            *)
@@ -29,7 +31,7 @@ Act(x, c) ==
     [] c.op = "yield" -> [x EXCEPT !.y = Rep32(c.h)]
     [] c.op = "provide" -> [x EXCEPT !.pv = @ \cup {c.b}]
     [] c.op = "checkpoint" -> x
-    [] c.op \in {"upgrade", "solicit"} -> x            \* change components outside this abstraction (code hash, lookups)
+    [] c.op \in {"upgrade", "solicit", "forget"} -> x  \* change components outside this abstraction (code hash, lookups)
 
 RECURSIVE Fold(_, _, _)
 \* regular context after the first k calls
@@ -57,8 +59,12 @@ Writes(ks) == {[op |-> "write", k |-> k, v |-> v] : k \in ks, v \in {<<1, 2, 3>>
 Others == {[op |-> "transfer", amt |-> 100], [op |-> "new", c |-> 201], [op |-> "yield", h |-> 31], [op |-> "yield", h |-> 32],
            [op |-> "provide", b |-> <<5, 6, 7, 8>>], [op |-> "provide", b |-> <<9, 9>>], [op |-> "checkpoint"]}
 \* further state-changing calls, judged through the exact snapshot comparison only
-Extra == {[op |-> "upgrade", c |-> 55], [op |-> "solicit", h |-> 66, z |-> 10], [op |-> "checkpoint"],
-          [op |-> "write", k |-> K2, v |-> <<1, 2, 3>>], [op |-> "yield", h |-> 31]}
+\* the service starts with lookup entries (32 x tag, 10) of 0 / 1 / 2 / 3 slots for tags 80 / 81 / 82 / 83, all older than t - D:
+\* forget removes the first and third, appends to the second and REWRITES the fourth in place ([x, y, z] -> [z, t])
+ExtraCore == {[op |-> "checkpoint"], [op |-> "forget", h |-> 83, z |-> 10], [op |-> "forget", h |-> 81, z |-> 10],
+              [op |-> "solicit", h |-> 82, z |-> 10], [op |-> "upgrade", c |-> 55]}
+Extra == ExtraCore \cup {[op |-> "solicit", h |-> 66, z |-> 10], [op |-> "forget", h |-> 80, z |-> 10], [op |-> "forget", h |-> 82, z |-> 10],
+                         [op |-> "write", k |-> K2, v |-> <<1, 2, 3>>], [op |-> "yield", h |-> 31]}
 AlphabetOf(tier) == Others \cup Writes(IF tier = "quick" THEN {KA, K2} ELSE {KA, K1, K2})
 
 =============================================================================
